@@ -27,6 +27,7 @@ import json
 import os
 import random
 import re
+import time
 from concurrent.futures import ProcessPoolExecutor, ThreadPoolExecutor
 
 from .. import core, gen, tlc
@@ -163,3 +164,418 @@ def _run_api(job):
     except Exception as e:  # generation failed: machinery, reported by the caller
         import traceback
         return False, None, f'{type(e).__name__}: {e}\n{traceback.format_exc()[-1500:]}'
+
+
+# ---------------------------------------------------------------------------------------------------------
+# case emission
+def _cfg_text(name, **subst):
+    with open(os.path.join(tlc.SPEC, name)) as f:
+        t = f.read()
+    for k, v in subst.items():
+        t, n = re.subn(rf'\b{k} = (\{{[^}}]*\}}|"[^"]*"|\S+)', f'{k} = {v}', t, count=1)
+        if n != 1:
+            raise core.MachineryError(f'constant {k} not found in {name}')
+    return t
+
+
+def _sim(argsd):
+    cases, r = tlc.emit_cases('ResourcePath', argsd['cfg'], deadlock=False, simulate=argsd['n'], depth=40,
+                              seed=argsd['seed'], timeout=1200)
+    return cases, r
+
+
+def submit_emission(ex, seed, quick):
+    """start every case-emission run; returns handles for collect_emission."""
+    names = ['small'] + ([] if quick else ['mid', 'wide'])
+    nsim = 60 if quick else 1500
+    sims = []
+    for m in range(1, 7):
+        for pi, per in enumerate(['{"del", "app", "pre", "sub", "ins"}', '{}']):
+            sims.append(dict(cfg=_cfg_text('ResourcePath.emit.sim.cfg', MinVars=m, Perturbs=per),
+                             n=nsim if pi == 0 else nsim // 2, seed=seed * 100 + m * 2 + pi, m=m))
+    fx = [(n, ex.submit(tlc.emit_cases, 'ResourcePath', f'ResourcePath.emit.{n}.cfg', deadlock=False, timeout=2400))
+          for n in names]
+    fs = [ex.submit(_sim, s) for s in sims]
+    fv = ex.submit(tlc.emit_cases, 'ResourcePath', 'ResourcePath.emit.vis.cfg', deadlock=False, timeout=600)
+    return fx, sims, fs, fv
+
+
+def collect_emission(chk, handles):
+    """returns (path cases deduplicated in deterministic order, VisibleResources cases)."""
+    fx, sims, fs, fv = handles
+    out, seen = [], set()
+
+    def add(cases, src):
+        for c in cases:
+            k = (c['pattern'], tuple(c['args']), c['str'])
+            if k not in seen:
+                seen.add(k); c['src'] = src; out.append(c)
+
+    for n, f in fx:
+        cases, r = f.result()
+        chk.add_tlc(r, f'ResourcePath case emission ({n}, exhaustive)')
+        if not cases:
+            raise core.MachineryError(f'no cases emitted by ResourcePath.emit.{n}.cfg\n' + r.out[-2000:])
+        add(cases, n)
+    nsimcases = 0
+    for sm, f in zip(sims, fs):
+        cases, r = f.result()
+        if r.rc != 0 or not cases:
+            raise core.MachineryError('simulation emitted no cases\n' + r.out[-2000:])
+        nsimcases += len(cases)
+        add(cases, f'sim{sm["m"]}')
+    chk.tlc_runs.append(dict(label='ResourcePath case emission (simulation, MinVars 1..6 x perturbed/unperturbed)',
+                             runs=len(sims), walks=sum(sm['n'] for sm in sims), cases=nsimcases))
+    vcases, rv = fv.result()
+    chk.add_tlc(rv, 'VisibleResources case emission')
+    if not vcases:
+        raise core.MachineryError('no VisibleResources cases emitted')
+    return out, vcases
+
+
+# ---------------------------------------------------------------------------------------------------------
+def classify(c, o, T):
+    """spec -> code comparison of one case.  Returns list of (key class, text)."""
+    P = c['pattern']
+    if not all(o['has_sync']):
+        return [('helper', f'client lacks {o["helper"]}_path / parse_{o["helper"]}_path (has {o["has_sync"]})')]
+    d = []
+    if not all(o['has_async']):
+        d.append(('async', f'asyncio client lacks {o["helper"]}_path / parse_{o["helper"]}_path (has {o["has_async"]})'))
+    exp_built = T(c['built'])
+    if o['built_err'] or o['built'] != exp_built:
+        d.append(('build', f'{o["helper"]}_path({c["_kwargs"]}) = {o["built"]!r} {o["built_err"] or ""}; predicted {exp_built!r}'))
+        return d
+    if o['parse_err'] or o['parsed'] is None:
+        d.append(('parse', f'parse_{o["helper"]}_path({o["parse_in"]!r}) raised {o["parse_err"]}'))
+        return d
+    got = dict((k, v) for k, v in o['parsed'])
+    if all(o['has_async']) and (o['a_err'] or o['a_built'] != o['built'] or o['a_parsed'] != o['parsed']):
+        d.append(('async', f'asyncio client helpers disagree with the sync ones: {o["a_built"]!r} {o["a_parsed"]} {o["a_err"]}'))
+    if not c['inq']:
+        return d          # outside the property's quantifier: the dict is not compared
+    exp = dict(zip(c['names'], [T(v) for v in c['parsed']])) if c['parsed'] else {}
+    if got != exp:
+        dot = dict(zip(c['names'], [T(v) for v in c['dotany']])) if c['dotany'] else {}
+        if c['hasdot'] and got == dot:
+            cls = 'sep-dot'
+        elif c['kind'] == 'built':
+            cls = 'roundtrip'
+        elif not exp:
+            cls = 'nonmatch'
+        else:
+            cls = 'parse'
+        d.append((cls, f'pattern {P!r}: build({c["_kwargs"]}) = {o["built"]!r}; parse({o["parse_in"]!r}) = {got}; predicted {exp}'))
+        return d
+    if exp:
+        if o['rebuilt_err'] or o['rebuilt'] != T(c['rebuilt']):
+            d.append(('rebuild', f'pattern {P!r}: build(**parse({o["parse_in"]!r})) = {o["rebuilt"]!r} {o["rebuilt_err"] or ""}; '
+                                 f'predicted {T(c["rebuilt"])!r}'))
+    return d
+
+
+def _upto_failing_round(events, info):
+    """the recorded steps up to the end of the helper round TLC could not follow (keeps replay files small)."""
+    k = int(info.get('matched_prefix') or 0)
+    end = next((j for j in range(k, len(events)) if events[j]['ev'] == 'again'), len(events))
+    return events[:end]
+
+
+def _tr(cmap):
+    return lambda s: ''.join(cmap.get(ch, ch) for ch in s)
+
+
+def check_visible(chk, c, inv):
+    for svc, field in (('S1', 's1'), ('S2', 's2')):
+        need = {f'res_{r}': c['place'][r] for r in c[field]}
+        need.update({f'common_{n}': 'common' for n in COMMON})
+        shape = ','.join(f'{r}={w}' for r, w in sorted(c['place'].items()))
+        chk.case(('visible', svc, shape), nontrivial=bool(c[field]))
+        for h, w in sorted(need.items()):
+            for flavour in ('sync', 'async'):
+                miss = [n for n in (f'{h}_path', f'parse_{h}_path') if n not in inv[svc][flavour]]
+                if miss:
+                    chk.violation(f'visible:{svc}:{w}' + ('' if flavour == 'sync' else ':async'),
+                                  f'{svc}{"Async" if flavour == "async" else ""}Client lacks {miss} although the resource is visible '
+                                  f'(shape {shape}); offered: {inv[svc][flavour]}', dict(case=c, inventory=inv))
+
+
+def replay(chk, path):
+    """./check C19 --replay <file>: run the recorded failing input again against the current tree."""
+    with open(path) as f:
+        body = json.load(f)
+    key, rep = body['key'], body['case']
+    chk.rule = 'replay of one recorded input'
+    if 'trace' in rep:
+        n, r = tlc.validate_traces('ResourcePathTrace', 'ResourcePathTrace.cfg', [dict(events=rep['trace']['events'])])
+        if n is None:
+            raise core.MachineryError('trace validation machinery failure:\n' + r.out[-2000:])
+        chk.states += r.distinct; chk.transitions += r.generated
+        chk.case(key)
+        if n < 1:
+            chk.violation(key, 'ResourcePathTrace still rejects the recorded steps (recorded from the tree at the time of the '
+                               'original run; run the check itself to record new ones)', rep)
+        else:
+            chk.traces += 1
+        return
+    c = rep['case']
+    if 'place' in c:
+        ok, out, err = _run_api(dict(api=vis_api(c['place']), payload=dict(module=VMODULE, services=[dict(name='S1'), dict(name='S2')],
+                                                                           inventory=True, resources=[])))
+        if not ok:
+            raise core.MachineryError(err)
+        check_visible(chk, c, out['inventory'])
+        return
+    T = _tr(c.get('_cmap') or {})
+    c['_args'] = [T(v) for v in c['args']]; c['_kwargs'] = dict(zip(c['names'], c['_args']))
+    helper = 'common_' + c['common'] if c['common'] else 'r0'
+    api = path_api([] if c['common'] else [(0, c['pattern'])])
+    res = [dict(service='Rp', helper=helper, calls=[dict(id=0, kind=c['kind'], args=c['_kwargs'], str=T(c['str']))])]
+    ok, out, err = _run_api(dict(api=api, payload=dict(module=MODULE, services=[dict(name='Rp')], inventory=False, resources=res)))
+    if not ok:
+        raise core.MachineryError(err)
+    chk.case(key)
+    for cls, text in classify(c, out['obs'][0], T):
+        chk.violation(f'{cls}:{c["pattern"]}', text, dict(case={x: c[x] for x in c if x != '_T'}, observed=out['obs'][0]))
+
+
+def size_key(c):
+    return (c['nvars'], len(c['pattern']), sum(len(a) for a in c['args']), len(c['str']), c['pattern'], c['args'], c['str'])
+
+
+def main(chk, args):
+    if getattr(args, 'replay', None):
+        return replay(chk, args.replay)
+    quick = chk.tier == 'quick'
+    rnd = random.Random(chk.seed)
+    phase, t0 = {}, time.time()
+
+    def mark(name):
+        nonlocal t0
+        phase[name] = round(time.time() - t0, 1); t0 = time.time()
+    # ---- 1. the specification satisfies the property within the bounds; mutants are rejected ---------------
+    # ---- 2. spec -> code cases (all TLC runs are started together; accounting in a fixed order) -------------
+    checks = [('small', 'ResourcePath.small.cfg')] + ([] if quick else [('full', 'ResourcePath.full.cfg'),
+                                                                       ('deep', 'ResourcePath.deep.cfg')])
+    mutants = ['segment_only', 'dot_any'] if quick else ['segment_only', 'unanchored', 'greedy', 'dot_any']
+
+    def run_checks():
+        return [(label, tlc.run('ResourcePath', cfg, workers=8 if quick else 12, deadlock=False, timeout=3000))
+                for label, cfg in checks]
+    with ThreadPoolExecutor(32) as ex:
+        fc = ex.submit(run_checks)
+        fvis = ex.submit(tlc.run, 'ResourcePath', 'ResourcePath.vis.cfg', workers=2, deadlock=False, timeout=600)
+        fm = {m: ex.submit(tlc.run, 'ResourcePath', _cfg_text('ResourcePath.small.cfg', Mutant=f'"{m}"', NaiveMax=0),
+                           workers=2, deadlock=False, timeout=900) for m in mutants}
+        handles = submit_emission(ex, chk.seed, quick)
+        for label, r in fc.result():
+            chk.add_tlc(r, f'ResourcePath model check ({label})')
+        chk.add_tlc(fvis.result(), 'VisibleResources model check')
+        rejected = {}
+        for m, f in fm.items():
+            r = f.result()
+            if not (r.violated or '').startswith('Inv_'):
+                raise core.MachineryError(f'spec mutant {m} was not rejected by TLC: violated={r.violated} rc={r.rc}\n{r.out[-1500:]}')
+            rejected[m] = r.violated
+        chk.extra['spec_mutants_rejected'] = rejected
+        mark('model_check')
+        cases, vcases = collect_emission(chk, handles)
+    mark('emit_cases')
+    bypat = {}
+    for c in cases:
+        bypat.setdefault(c['pattern'], []).append(c)
+    patterns = sorted(bypat, key=lambda p: (bypat[p][0]['nvars'], len(p), p))
+    if quick and len(patterns) > 300:
+        fixed = [p for p in patterns if bypat[p][0]['src'] == 'small']
+        rest = [p for p in patterns if bypat[p][0]['src'] != 'small']
+        patterns = fixed + sorted(rnd.sample(rest, 300 - len(fixed)))
+    chk.exhaustive = not quick
+    # ---- 3. concretise: ~30 patterns per API, real generator, emitted helpers ---------------------------------
+    jobs, meta = [], {}
+    cid = 0
+    common_calls = {}
+    plist = [p for p in patterns if not bypat[p][0]['common']]
+    for a in range(0, len(plist), PER_API):
+        chunk = list(enumerate(plist[a:a + PER_API]))
+        la, lb = rnd.sample(POOL, 2) if a else ('a', 'b')
+        cmap = {'a': la, 'b': lb}
+        resources = []
+        for i, p in chunk:
+            calls = []
+            for c in bypat[p]:
+                T = (lambda s, la=la, lb=lb: ''.join(la if ch == 'a' else lb if ch == 'b' else ch for ch in s))
+                c['_T'], c['_cmap'] = T, cmap
+                c['_args'] = [T(v) for v in c['args']]
+                c['_kwargs'] = dict(zip(c['names'], c['_args']))
+                meta[cid] = c
+                calls.append(dict(id=cid, kind=c['kind'], args=c['_kwargs'], str=T(c['str'])))
+                cid += 1
+            resources.append(dict(service='Rp', helper=f'r{i}', calls=calls))
+        if a == 0:   # the five common resources ride on the first API (every service offers them)
+            for p in patterns:
+                c0 = bypat[p][0]
+                if not c0['common']:
+                    continue
+                calls = []
+                for c in bypat[p]:
+                    c['_T'], c['_cmap'] = (lambda s: s), {'a': 'a', 'b': 'b'}
+                    c['_args'] = list(c['args']); c['_kwargs'] = dict(zip(c['names'], c['args']))
+                    meta[cid] = c
+                    calls.append(dict(id=cid, kind=c['kind'], args=c['_kwargs'], str=c['str']))
+                    cid += 1
+                resources.append(dict(service='Rp', helper='common_' + c0['common'], calls=calls))
+        jobs.append(dict(api=path_api(chunk), payload=dict(module=MODULE, services=[dict(name='Rp')], inventory=False,
+                                                           resources=resources)))
+    # VisibleResources shapes
+    vcases.sort(key=lambda c: json.dumps(c['place'], sort_keys=True))
+    if quick:     # every placement once: 7 shapes with two different placements each
+        places = sorted({c['place']['r1'] for c in vcases})
+        k = rnd.randrange(len(places))
+        places = places[k:] + places[:k]
+        want = {(places[j], places[(j + 1) % len(places)]) for j in range(0, len(places), 2)}
+        vcases = [c for c in vcases if (c['place']['r1'], c['place']['r2']) in want]
+    vjobs = [dict(api=vis_api(c['place']), payload=dict(module=VMODULE, services=[dict(name='S1'), dict(name='S2')],
+                                                        inventory=True, resources=[])) for c in vcases]
+    obs, inventories = {}, []
+    with ProcessPoolExecutor(16) as ex:
+        results = list(ex.map(_run_api, jobs + vjobs))
+    for j, (ok, out, err) in enumerate(results):
+        if not ok:
+            raise core.MachineryError(f'generation / driver failed for API {j}:\n{err}')
+        if j < len(jobs):
+            for o in out['obs']:
+                obs[o['id']] = o
+        else:
+            inventories.append(out['inventory'])
+    if len(obs) != len(meta):
+        raise core.MachineryError(f'driver returned {len(obs)} observations for {len(meta)} calls')
+
+    mark('generate_and_drive')
+    # ---- 4. spec -> code comparison -------------------------------------------------------------------------------
+    bad = {}           # key -> list of (case, obs, text)
+    flagged = set()
+    outside = 0
+    for i in sorted(meta):
+        c, o = meta[i], obs[i]
+        chk.case((c['pattern'], c['_args'], o['parse_in'] if c['kind'] == 'foreign' else ''),
+                 nontrivial=c['nvars'] >= 1 and (bool(c['parsed']) or c['kind'] == 'foreign'))
+        outside += 0 if c['inq'] else 1
+        for cls, text in classify(c, o, c['_T']):
+            bad.setdefault(f'{cls}:{c["pattern"]}', []).append((c, o, text))
+            if cls not in ('helper', 'async'):      # the recorded steps themselves disagree with the specification
+                flagged.add(i)
+    per_class = {}
+    for key in bad:
+        per_class.setdefault(key.split(':', 1)[0], []).append(key)
+    reported = {}
+    for cls, keys in sorted(per_class.items()):
+        keys.sort(key=lambda k: size_key(min((x[0] for x in bad[k]), key=size_key)))
+        for k in keys[:25]:          # smallest failing patterns first; the totals go to the evidence file
+            c, o, text = min(bad[k], key=lambda x: size_key(x[0]))
+            chk.violation(k, f'{text}  [{len(bad[k])} failing case(s) for this pattern; {len(keys)} pattern(s) in class {cls}]',
+                          dict(case={x: c[x] for x in c if x != '_T'}, observed=o))
+            reported[k] = len(bad[k])
+    chk.extra['failing_patterns_by_class'] = {cls: len(keys) for cls, keys in per_class.items()}
+    chk.extra['failing_cases_by_class'] = {cls: sum(len(bad[k]) for k in keys) for cls, keys in per_class.items()}
+
+    # VisibleResources: every predicted helper is offered by the sync and the asyncio client of that service
+    for c, inv in zip(vcases, inventories):
+        check_visible(chk, c, inv)
+
+    mark('compare')
+    # ---- 5. code -> spec: batched trace validation -------------------------------------------------------------------
+    groups = {}
+    nflag = 0
+    for i in sorted(meta):
+        c, o = meta[i], obs[i]
+        if not all(o['has_sync']) or o['built'] is None or o['parsed'] is None or (o['rebuilt'] is None and o['parsed']):
+            continue
+        if i in flagged:
+            if nflag >= 2:
+                continue          # already reported by the comparison; a few are kept to confirm TLC agrees
+            nflag += 1
+        groups.setdefault((c['pattern'], i if i in flagged else -1), []).append((c, o))
+    traces, tkeys = [], []
+    for (p, fl), lst in groups.items():
+        for a in range(0, len(lst), 400):
+            ev = pattern_events(p)
+            for n, (c, o) in enumerate(lst[a:a + 400]):
+                ev += ([dict(ev='again')] if n else []) + call_events(c, o)
+            traces.append(dict(pattern=p, n=len(lst[a:a + 400]), events=ev))
+            tkeys.append((p, fl))
+    # flagged traces go to their own batch (each rejection costs one more TLC run); clean ones in batches of ~2500 rounds
+    shards = [[t for t in range(len(traces)) if tkeys[t][1] >= 0]]
+    shards = [s for s in shards if s]
+    cur, w = [], 0
+    per_shard = 2500 if quick else 12000
+    for t in range(len(traces)):
+        if tkeys[t][1] >= 0:
+            continue
+        cur.append(t); w += traces[t]['n']
+        if w >= per_shard:
+            shards.append(cur); cur, w = [], 0
+    if cur:
+        shards.append(cur)
+
+    def _val(ix):
+        return tlc.validate_all('ResourcePathTrace', 'ResourcePathTrace.cfg', [traces[t] for t in ix], timeout=2400)
+    with ThreadPoolExecutor(8) as ex:
+        vres = list(ex.map(_val, shards))
+    acc_calls = 0
+    nrej = 0
+    for ix, (accepted, rejected, runs) in zip(shards, vres):
+        for r3 in runs:
+            chk.states += r3.distinct; chk.transitions += r3.generated
+        rej = {ix[j] for j, _, _ in rejected}
+        if len(rejected) >= 10:
+            raise core.MachineryError('more than 10 rejected traces in one batch; verdicts incomplete')
+        acc_calls += sum(traces[t]['n'] for t in ix if t not in rej)
+        for j, t, info in rejected:
+            p, fl = tkeys[ix[j]]
+            nrej += 1
+            if fl >= 0:
+                ks = [k for k in bad if any(x[0] is meta[fl] for x in bad[k])]
+                key = 'trace:' + (ks[0] if ks else f'flagged:{p}')
+            else:
+                key = f'trace:unflagged:{p}'
+            chk.violation(key, f'ResourcePathTrace rejected the recorded helper calls for pattern {p!r}: {info}',
+                          dict(trace=dict(pattern=p, events=_upto_failing_round(t['events'], info)), info=info))
+    chk.tlc_runs.append(dict(label='ResourcePathTrace batches', runs=sum(len(v[2]) for v in vres), shards=len(shards),
+                             traces=len(traces), helper_rounds_accepted=acc_calls, rejected=nrej))
+    chk.traces += acc_calls
+    if nflag and nrej < nflag:
+        raise core.MachineryError(f'{nflag} observations disagreed with the predictions but only {nrej} traces were rejected '
+                                  f'(the two bindings disagree)')
+
+    mark('trace_validation')
+    chk.extra['phase_s'] = phase
+    # ---- 6. evidence --------------------------------------------------------------------------------------------------
+    nv = {}
+    for p in patterns:
+        nv[bypat[p][0]['nvars']] = nv.get(bypat[p][0]['nvars'], 0) + 1
+    chk.rule = ('cases = (pattern, segment values, string handed to parse) chosen by TLC: exhaustive small scopes '
+                '(ResourcePath.emit.small/mid.cfg), every pattern of the grammar up to 6 variables with three probe '
+                'assignments (emit.wide, thorough), seeded simulation with 1..6 variables, values <= 3 characters over '
+                '{a, b, /, -, _, ~, .} minus the delimiters of the pattern, strings perturbed by delete/append/prepend/'
+                'substitute/insert; plus VisibleResources shapes (2 resources x 13 placements). non-trivial = at least one '
+                'variable and (a non-empty predicted dict or a foreign string); distinct by (pattern, concrete values, string)')
+    for i in sorted(meta)[:2] + sorted(meta)[-3:]:
+        c, o = meta[i], obs[i]
+        chk.sample(dict(pattern=c['pattern'], kind=c['kind'], kwargs=c['_kwargs'], built=o['built'], parse_in=o['parse_in'],
+                        parsed=o['parsed'], predicted=c['parsed'], in_quantifier=c['inq'], rebuilt=o['rebuilt']))
+    if vcases:
+        chk.sample(dict(visible_shape=vcases[0]['place'], s1=vcases[0]['s1'], s2=vcases[0]['s2']))
+    chk.assumptions += [
+        'segment values are over characters that are not delimiters of the pattern and contain no line break '
+        '(abstract letters a/b are mapped to printable characters incl. regex metacharacters and non-ASCII)',
+        'a string that matches the pattern only with a value containing one of its delimiters (e.g. c0/a/b for c0/{v0}) '
+        'is outside the quantifier: the returned dict is not compared for such strings',
+        'helpers are required for visible resources; extra helpers are not a violation',
+        'patterns follow the grammar of the property: optional leading collection id, variables separated by /id/ or by one '
+        'of - _ ~ ., optional singleton suffix or trailing {v=**}, the wildcard *, and the five common resources']
+    chk.extra.update(patterns=len(patterns), patterns_by_nvars=nv, apis_generated=len(jobs) + len(vjobs), helper_rounds=len(meta),
+                     strings_outside_quantifier_not_compared=outside, visible_shapes=len(vcases),
+                     violation_keys_reported=len(reported))
+
+
+main.level = 'model_checking'
